@@ -99,6 +99,7 @@ impl Check for C10 {
             short_read_pct: *r.pick(&[0u32, 10, 50]),
             kill,
             sentinels: false,
+            io_fault: None,
         }
     }
     fn execute(&self, sc: &HubSc) -> RunReport {
